@@ -365,8 +365,16 @@ __in_range_p(struct dt_dt_s now, const struct dseq_clo_s *clo)
 static struct dt_dt_s
 __seq_altnext(struct dt_dt_s now, const struct dseq_clo_s *clo)
 {
+	struct dt_dt_s old;
+
 	do {
+		old = now;
 		now = date_add(now, clo->altite, clo->naltite);
+		if (!dt_sandwich_only_t_p(now) && !dt_dtcmp(now, old)) {
+			/* a unit that cannot move NOW, leave it to
+			 * the callers to drop the skipped date */
+			break;
+		}
 	} while (skipp(clo->ss, now) && __in_range_p(now, clo));
 	return now;
 }
@@ -381,9 +389,15 @@ __seq_this(struct dt_dt_s now, const struct dseq_clo_s *clo)
 		return __seq_altnext(now, clo);
 	} else if (clo->nite) {
 		/* advance until it goes out of range */
-		for (;
-		     skipp(clo->ss, now) && __in_range_p(now, clo);
-		     now = date_add(now, clo->ite, clo->nite));
+		while (skipp(clo->ss, now) && __in_range_p(now, clo)) {
+			struct dt_dt_s old = now;
+
+			now = date_add(now, clo->ite, clo->nite);
+			if (!dt_sandwich_only_t_p(now) && !dt_dtcmp(now, old)) {
+				/* a unit that cannot move NOW */
+				break;
+			}
+		}
 	} else {
 		/* good question */
 		;
@@ -778,7 +792,7 @@ increment must not be naught");
 		tmp = __seq_this(clo.fst, &clo);
 	}
 
-	while (__in_range_p(dt_fixup(tmp), &clo)) {
+	while (__in_range_p(dt_fixup(tmp), &clo) && !skipp(clo.ss, tmp)) {
 		struct dt_dt_s tgt = tmp;
 		struct dt_dt_s nxt;
 
